@@ -50,13 +50,13 @@ META = {
     "C22": {
         "ready": True,
         "technique": "runtime monitoring: seeded hostile publication/subscription histories against the real tx-status-manager service (public API, paused tokio clock), subscriber-end recording, offline per-subscriber oracle",
-        "text": "Across ~73k (quick) subscriber streams over all three write routes, batches, lagging/draining/dropped subscribers, limits 1-8 and TTL expiry, every stream was in publication order, duplicate-free, silent after the first final status and after its end; every draining subscriber received exactly the owed statuses up to the first final one and its stream ended.",
+        "text": "Across ~73k (quick) subscriber streams over all three write routes, batches, lagging/draining/dropped subscribers, limits 1-8 and TTL expiry, every stream was in publication order, duplicate-free, silent after the first final status and after its end; every draining subscriber received exactly the owed statuses up to the first final one and its stream ended. The workload includes value-identical re-publications (judged by value sequence) and two deliberately different finite TTLs (subscription vs cache).",
         "note": "Trusted: harness final-status list, publication log/serial stamping, barrier assumption (biased select: writes before reads), exclusion rules for completeness; subscription-limit behaviour not judged.",
     },
     "C23": {
         "ready": True,
         "technique": "runtime monitoring: seeded publication/advance/query histories on the real service with a paused tokio clock stepping around the TTL boundary; per-query oracle from a last-publication model",
-        "text": "In ~857k (quick) judged queries, get_status always returned the latest publication while it was Submitted or younger than the TTL (including ttl-1ms, republished-after-expired-predecessor and mixed Submitted/non-Submitted sequences), never an older one, and never a status for an unpublished tx; forgetting was only observed at age >= TTL.",
+        "text": "In ~857k (quick) judged queries, get_status always returned the latest publication while it was Submitted or younger than the TTL (including ttl-1ms, republished-after-expired-predecessor and mixed Submitted/non-Submitted sequences), never an older one, and never a status for an unpublished tx; forgetting was only observed at age >= TTL. Includes value-identical re-publications refreshing the TTL, fractional TTLs, and a subscription TTL different from the cache TTL.",
         "note": "Trusted: the model (last publication + virtual time), the check that the cache reads tokio Instant; retention beyond the TTL is accepted by the property (a mutant that only delays pruning is invisible by design).",
     },
     "C44": {
@@ -74,7 +74,7 @@ META = {
     "C33": {
         "ready": True,
         "technique": "runtime monitoring: end-to-end round trip of block sequences through the real compression-service storage (separate compressor and decompressor Database<CompressionDatabase>, real on-chain DB for history lookups) with an equality oracle",
-        "text": "In every produced session (30-60 blocks, small value alphabets, retention 2-600 s with time steps 0,1,R-1,R,R+1,2R+1, evictor placed below the 24-bit wrap and repeatedly below live keys: ~10^4 overwrites of live keys, ~10^3 wraps, ~4x10^4 reuse hits per quick run) each compressed block deserialised and decompressed, in order, to the original header and to the original transactions with exactly the format's non-transported (execution-filled) fields reset; tx ids equal. Not claimed: histories not generated, V1/fault-proving payloads, RocksDB backend.",
+        "text": "In every produced session (30-60 blocks, small value alphabets, retention 2-600 s with time steps 0,1,R-1,R,R+1,2R+1, evictor placed below the 24-bit wrap and repeatedly below live keys: ~10^4 overwrites of live keys, ~10^3 wraps, ~4x10^4 reuse hits per quick run) each compressed block deserialised and decompressed, in order, to the original header and to the original transactions with exactly the format's non-transported (execution-filled) fields reset; tx ids equal. Not claimed: histories not generated, V1/fault-proving payloads, RocksDB backend. Incl. byte-identical values in different registry keyspaces (script/predicate code, address/asset/contract ids) in the same and in different blocks.",
         "note": "Trusted: structural block generator + ledger (coins/messages/FuelBlocks written by the harness), the normalisation list of skipped fields, moving the evictor pointer as a model of a full key cycle, postcard.",
     },
     "C43": {
@@ -123,14 +123,14 @@ META = {
     "C34": {
         "ready": True,
         "technique": "runtime monitoring: long random update histories on the real AlgorithmUpdaterV1 with bound/rate oracles",
-        "text": "22M updater calls over 16k configurations keep exec price >= min, DA price within [min,max], per-call moves within the configured percentages (1-unit rounding allowance, clamps exempt), and wrong heights are rejected without any state change.",
+        "text": "22M updater calls over 16k configurations keep exec price >= min, DA price within [min,max], per-call moves within the configured percentages (1-unit rounding allowance, clamps exempt), and wrong heights are rejected without any state change. Per-call moves of the exec and DA price are bounded exactly by floor(prev*pct/100) in the scaled domain (no rounding allowance).",
         "note": "Trusted: the arithmetic oracle; config domain min <= max and min*factor fits u64; panics map to inconclusive.",
     },
     "C35": {
         "ready": True,
         "technique": "runtime monitoring: exhaustive grid over the precomputed-table region and its boundary + random families, through 4 public entry points, each call under catch_unwind",
         "text": "Every horizon/percentage 0..=64 for 26 prices (incl. 2^53+-1, the compensation cutoff, u64::MAX) through cumulative_percentage_change, AlgorithmV1::worst_case (exec and DA) and UniversalGasPriceProvider::worst_case_gas_price is total, monotone in the horizon and >= exact saturating integer compounding, except the documented f64-precision class (<= 2^-40 relative above 2^46; open known finding).",
-        "note": "Trusted: oracle = saturating c + floor(c*q/100) per block. The table-edge panic found by this monitor was repaired by a fix: commit.",
+        "note": "Trusted: oracle = saturating c + floor(c*q/100) per block. The table-edge panic found by this monitor was repaired by a fix: commit. Float-rounding deficits are split by the documented compensation cutoff: below it, and above it only where the propagated rounding bound exceeds 2000, they are open known findings; any deficit where the +2000 compensation must suffice is an alarm.",
     },
 
     "C24": {
@@ -224,7 +224,7 @@ META = {
         "ready": True,
         "technique": "runtime monitoring: differential execution of MemoryStore, RocksDb, HistoricalRocksDB (all rewind policies) and ChangesIterator against a sorted-map model with systematic prefix/start/direction enumeration over a boundary-heavy key alphabet",
         "text": "Held on the histories produced: after every accepted commit every backend held the model's contents, every get and every in-contract (prefix,start,direction) query over the alphabet {00,01,7F,FE,FF}^0..3 returned the model's entries in order, and held snapshots did not change. Three defects found by this monitor (reverse prefix iteration x2, ChangesList flatten) were repaired by fix: commits.",
-        "note": "Trusted: filter+sort model_iter. Excluded and counted: duplicate-key lists (backends legitimately differ in how they reject), start outside prefix (outside the documented contract), forward prefixes shorter than a column's fixed prefix extractor. A valgrind memcheck pass (0 errors) was run by hand and is not part of the registered command.",
+        "note": "Trusted: filter+sort model_iter. Excluded and counted: duplicate-key lists (backends legitimately differ in how they reject), start outside prefix (outside the documented contract), forward prefixes shorter than a column's fixed prefix extractor. A valgrind memcheck pass (0 errors) was run by hand and is not part of the registered command. C11/C12 histories run in child processes with per-call breadcrumbs: a backend crash (SIGSEGV/SIGABRT) is reported as an attributable violation.",
     },
     "C12": {
         "ready": True,
@@ -280,6 +280,6 @@ META = {
         "ready": True,
         "technique": "runtime monitoring: byte-wise database dumps around every read-only request, duplicate requests, production before/after dry runs; real Producer::dry_run over chaingen sessions (in-memory and HistoricalRocksDB) and a FuelService node through FuelClient",
         "text": "For ~9k (quick) / ~120k (thorough) dry-run requests at producer level (valid, reverting, invalid and unknown-contract transactions, singly and in groups; latest, next, past and future heights; utxo validation on/off; gas price given/default; storage-read recording) every on-chain and relayer column was byte-identical before and after, the repeated request gave the identical answer, and each block produced after all its dry runs was identical to the one produced before them; on an in-process node dry_run, dry_run_opt (incl. past heights), record_storage_reads, estimate_predicates, assemble_tx and 12 read-only queries left the on-chain, off-chain and relayer databases byte-identical, deterministic endpoints repeated their answers, and dry-run transactions (and the signed assembled transaction) were then accepted by the pool and included.",
-        "note": "Trusted: dump covers the Column enums (not RocksDB history CFs, gas-price/compression DBs); node dumps taken while quiescent (manual blocks). Producer-level relayer/gas-price/params ports are stubs. assemble_tx/coins_to_spend are randomised: only side effects judged. Pool refusals are judged only for inputs never given to the pool.",
+        "note": "Trusted: dump covers the Column enums (not RocksDB history CFs, gas-price/compression DBs); node dumps taken while quiescent (manual blocks). Producer-level relayer/gas-price/params ports are stubs. assemble_tx/coins_to_spend are randomised: only side effects judged. Pool refusals are judged only for inputs never given to the pool. The producer-level relayer port reports a finalized DA height that the harness advances between the two identical requests; answers must not depend on it.",
     },
 }
